@@ -809,7 +809,11 @@ func (c *Ctx) execInstr(fr *Frame, st *State, ins ssa.Instruction) []*exitInfo {
 		c.unsupported("SliceToArrayPointer")
 		c.set(fr, x, c.freshVal(x.Type(), "s2a"))
 	case *ssa.Defer:
-		c.unsupported("defer in %s", fr.fn.String())
+		if fr.con != nil && fr.con.IgnoreDefer {
+			c.assumed["deferred call ignored (declared 'ignoredefer': a recover-and-rethrow handler that cannot affect normal returns): "+c.relName(fr.fn)] = true
+		} else {
+			c.unsupported("defer in %s", fr.fn.String())
+		}
 	case *ssa.Go, *ssa.Select, *ssa.Send, *ssa.MakeChan:
 		c.unsupported("concurrency instruction %T in %s", ins, fr.fn.String())
 		if v, ok := ins.(ssa.Value); ok {
